@@ -323,6 +323,24 @@ func init() {
 			if full != crlf {
 				flags += "!CRLF-CHANGED-RESULTS"
 			}
+			// the same list from a file, with and without a final line break (an editor may or may not write one)
+			for _, tail := range []string{"", "\n"} {
+				tf, terr := os.CreateTemp("", "c12list")
+				must(terr)
+				_, _ = tf.WriteString(strings.Join(lines, "\n") + tail)
+				_ = tf.Close()
+				fl, ferr := filterlist.NewFileRuleList(3, tf.Name(), false)
+				must(ferr)
+				fsnap, pf := engineSnapshot([]filterlist.RuleList{fl}, reqs)
+				_ = fl.Close()
+				_ = os.Remove(tf.Name())
+				if pf {
+					flags += "!PANIC-IN-ENGINE"
+				}
+				if fsnap != full {
+					flags += "!FILE-BACKED-LIST-CHANGED-RESULTS:final-newline=" + b01(tail != "")
+				}
+			}
 			// the scan sequence of the full list
 			var texts []string
 			s, err := filterlist.NewRuleStorage(mk(lines, "\n"))
